@@ -30,6 +30,17 @@ Section Masks.
   Definition mask_above (fmax : F) (req : list F) : list bool :=
     map (fun x => ltb fmax x) req.
 
+  (* x == y, and np.array_equal on 1-D arrays *)
+  Definition feqb (x y : F) : bool := leb x y && leb y x.
+  Fixpoint list_eqb (a b : list F) : bool :=
+    match a, b with
+    | [], [] => true
+    | x :: a', y :: b' => feqb x y && list_eqb a' b'
+    | _, _ => false
+    end.
+  (* the test emg3d used before the fix: sizes only *)
+  Definition same_length (a b : list F) : bool := Nat.eqb (List.length a) (List.length b).
+
   (* x[::k], k >= 1 *)
   Fixpoint every_from (k : nat) (skip : nat) (l : list F) : list F :=
     match l with
@@ -108,8 +119,10 @@ Section Interpolate.
   Definition cplx : Type := (F * F)%type.
   Definition czero : cplx := (0%F, 0%F).
 
-  (* Fourier.interpolate(fdata) *)
-  Definition interpolate (fmin fmax : F) (every_x : option nat)
+  (* Fourier.interpolate(fdata), parametric in the test that selects the
+     pass-through branch *)
+  Definition interpolate_with (pass : list F -> list F -> bool)
+             (fmin fmax : F) (every_x : option nat)
              (input_freq : option (list F)) (req : list F) (fdata : list cplx)
     : option (list cplx) :=
     let coarse := freq_coarse every_x input_freq req in
@@ -118,7 +131,7 @@ Section Interpolate.
     let me := mask_extrapolate leb fmin req in
     let out0 := repeat czero (List.length req) in
     let vals_i :=
-      if Nat.eqb (List.length coarse) (List.length req)
+      if pass coarse req
       then fdata                                            (* pass-through *)
       else map (fun x => (spline1 (map logf fc) (map fst fdata) (logf x),
                           spline1 (map logf fc) (map snd fdata) (logf x)))
@@ -137,6 +150,12 @@ Section Interpolate.
             massign me vals_e out1
         end
     end.
+
+  (* the code: pass-through iff np.array_equal(freq_coarse, freq_required) *)
+  Definition interpolate := interpolate_with (list_eqb leb).
+  (* emg3d before "fix: Fourier.interpolate passed data through whenever input_freq
+     had the size of freq_required": sizes compared only *)
+  Definition interpolate_unfixed := interpolate_with (@same_length F).
 
   (* Fourier.freq2time(fdata, off): the reference transform applied to the
      filled spectrum *)
